@@ -158,6 +158,35 @@ def run(prog, rep):
                 re.search(r"\.column AddWithOverflow 1_usize", locv) is not None and "line " in locv
             rep.check(okv and okl and len(adds) == 2 and all(v[1] and v[2] for v in adds.values()), "C15.N3", "Variable::add_debug_attrs", f.loc(), "variable_name_attr = `{self}`, location_attr = `line {row+1} column {column+1}` of the variable",
                       "node debug attributes are %s" % {k: v[0][:100] for k, v in adds.items()})
+    # the variable's text is its Display: it may depend only on what the parser read from the source text (name / scope),
+    # not on what later analyses attached to the node (quantifier, capture indices, location)
+    for ty, allowed in (("tsg::ast::UnscopedVariable", {"name"}), ("tsg::ast::ScopedVariable", {"scope", "name"}), ("tsg::ast::Capture", {"name"})):
+        fl = [f for f in prog.fns.values() if f.self_path == ty and f.trait == "std::fmt::Display" and f.name == "fmt"]
+        if len(fl) != 1:
+            rep.violation("C15.N3", "anchor-lost:Display for %s" % ty, "", "not found")
+            continue
+        f = fl[0]
+        read = set()
+        for g in [f] + prog.all_closures_under(f):
+            for b in sorted(g.body.reachable()):
+                places = []
+                for st in g.body.blocks[b]["stmts"]:
+                    if st["k"] == "assign":
+                        rv = st["rv"]
+                        for op in ([rv.get("op")] if rv.get("op") else []) + list(rv.get("ops") or []) + ([rv.get("l"), rv.get("r")] if rv.get("l") else []):
+                            if isinstance(op, dict) and op.get("k") in ("copy", "move"):
+                                places.append(op["p"])
+                        if rv.get("p"):
+                            places.append(rv["p"])
+                t = g.body.term(b)
+                if t["k"] == "switch" and t["discr"].get("k") in ("copy", "move"):
+                    places.append(t["discr"]["p"])
+                for pl in places:
+                    for x in pl.get("p", []):
+                        if x["k"] == "field" and x.get("adt") == ty:
+                            read.add(x.get("name"))
+        rep.check(read <= allowed and "name" in read, "C15.N3", "Display for %s :: source text only" % ty.rsplit("::", 1)[-1], f.loc(), "prints %s" % sorted(read),
+                  "the printed form of %s also depends on %s: the variable-name debug attribute is no longer the variable's text" % (ty.rsplit("::", 1)[-1], sorted(read - allowed)))
     feats = {}
     for mode, nm, idx in (("strict", "execute", "full_match_stanza_capture_index"), ("lazy", "execute_lazy", "full_match_file_capture_index")):
         fl = [f for f in prog.fns.values() if f.self_path == "tsg::ast::CreateGraphNode" and f.name == nm]
@@ -193,34 +222,14 @@ def run(prog, rep):
             rep.check(len(dbg) == 1 and canon(strip(tr.operand(dbg[0][1]["args"][0]))) == "arg:self", "C15.N3", "%s CreateEdge :: own location" % mode, f.loc(), "the edge statement itself provides the location", "edge debug attributes do not come from the executing edge statement")
     # the locations themselves: captured at the construct's first character (C07's E7.l)
     from . import C07
-    class OnlyL:
+    from ..lib.report import Filtered as _F
+    class OnlyL(_F):
         def __init__(self, rep):
-            self.rep = rep
-            self.notes = rep.notes
-            self.extra = {}
-        def rule(self, rid, text):
-            if rid == "E7.l":
-                self.rep.rule(rid, text)
-        def ok(self, rule, key, where="", detail=""):
-            if rule == "E7.l":
-                self.rep.ok(rule, key, where, detail)
-        def violation(self, rule, key, where="", detail=""):
-            if rule == "E7.l":
-                self.rep.violation(rule, key, where, detail)
-        def check(self, cond, rule, key, where="", detail="", fail_detail=None):
-            (self.ok if cond else self.violation)(rule, key, where, detail if cond else (fail_detail or detail))
-            return cond
+            # E7.l: where locations are captured; E7.w: how the position advances (columns count characters, rows lines)
+            _F.__init__(self, rep, lambda rule, key: rule in ("E7.l", "E7.w"), floors=True)
         def floor(self, rule, found, expected, what):
-            if rule == "E7.l":
-                self.rep.floor(rule, found, expected, what)
-        def unresolved(self, *a, **k):
-            pass
-        def trust(self, t):
-            pass
-        def assume(self, t):
-            pass
-        def control(self, *a, **k):
-            pass
+            if rule in ("E7.l", "E7.w"):
+                _F.floor(self, rule, found, expected, what)
     C07._ORD.clear()
     C07.run(prog, OnlyL(rep))
     # the match-node attribute reads exec.full_match_*_capture_index: every ExecutionContext must be built with the index of
